@@ -502,10 +502,18 @@ func (m *mWorld) startOp(h *mHandle) {
 			rq.Key = append(rq.Key, sq.EncVal(v))
 		}
 	}
-	if h.kind == "select" || h.kind == "ixselect" || h.kind == "tscan" {
+	switch h.kind {
+	case "select", "ixselect", "tscan", "ixeq", "pk":
+		// every call that takes a row callback can leave through a panic of the callback
+		// or through a failing page read
 		switch s.Weighted([]int{6, 2, 2}, "exitpath") {
 		case 1:
 			rq.PanicAt = 1 + s.Draw(10, "panicat")
+			if h.kind == "pk" {
+				rq.PanicAt = 1 // at most one row
+			} else if h.kind == "ixeq" {
+				rq.PanicAt = 1 + s.Draw(2, "panicat-eq")
+			}
 			h.exit = "callback-panic"
 			m.c.Fault("callback-panic")
 		case 2:
